@@ -120,8 +120,8 @@ structure RebalanceOut (q q' : Q K) : Prop where
   psize : q'.proxies.size = q.proxies.size
   attached : ∀ (p : Nat) (pr' : Proxy), q'.proxies[p]? = some pr' →
     ∃ pr : Proxy, q.proxies[p]? = some pr ∧ pr'.data = pr.data ∧ (pr'.node = MAXN ↔ pr.node = MAXN)
-  clean : (∀ (n : Nat) (nd : Node K), q.nodes[n]? = some nd → Live q n → nd.dirty = false) →
-    ∀ (n : Nat) (nd : Node K), q'.nodes[n]? = some nd → Live q' n → nd.dirty = false
+  clean : (∀ (n : Nat) (nd : Node K), q.nodes[n]? = some nd → nd.dirty = false) →
+    ∀ (n : Nat) (nd : Node K), q'.nodes[n]? = some nd → nd.dirty = false
 
 theorem rebalance_okPath {q : Q K} (hinv : Inv q) (margin : K) (root : Node K) (hroot : q.nodes[0]? = some root)
     (c : Coll K) (hc : collectAll q root = .ok c) (q1 : Q K) (id : Nat) (aabb : Aabb3 K)
@@ -539,14 +539,201 @@ theorem rebalance_okPath {q : Q K} (hinv : Inv q) (margin : K) (root : Node K) (
       have h2 : pr.node ≠ MAXN := by have := hFlt _ c2; have := hinv.small; omega
       exact ⟨fun e => absurd e h1, fun e => absurd e h2⟩
     · exact ⟨pr', by rw [← hproxSame p hs]; exact hp, rfl, Iff.rfl⟩
-  · intro hclean n nd hnd hl
+  · intro hclean n nd hnd
     by_cases hn0 : n = 0
     · subst hn0; rw [hn0'] at hnd; cases hnd; rfl
-    · rcases hclass n nd hnd hl hn0 with hA | ⟨hlq, hnF, nd0, hnd0⟩
-      · exact o.alClean n nd hA (by rw [← hnne n hn0]; exact hnd)
-      · obtain ⟨u1, u2⟩ := hU n nd0 hnd0 hlq hn0 hnF
-        by_cases hk : ∃ it ∈ its, it.isLeaf = false ∧ it.orig = n
-        · obtain ⟨x, e, _, _, a3⟩ := u2 hk
-          rw [hnd] at e; cases e; rw [a3]; exact hclean n nd0 hnd0 hlq
-        · have e := u1 hk
-          rw [hnd] at e; cases e; exact hclean n nd hnd0 hlq
+    · rw [hnne n hn0] at hnd
+      by_cases hA : Al { q with freeList := c.free } q1 n
+      · exact o.alClean n nd hA hnd
+      · by_cases hk : ∃ it ∈ its, it.isLeaf = false ∧ it.orig = n
+        · obtain ⟨x, x', a1, a2, _, _, _, a6, _⟩ := o.keptSame n ((hKp n).2 hk)
+          rw [hnd] at a2; cases a2
+          rw [a6]; exact hclean n x a1
+        · rw [o.nodeSame n hA (fun h => hk ((hKp n).1 h))] at hnd
+          exact hclean n nd hnd
+
+/-! ## `rebalance` as a whole -/
+
+theorem foldLanes_noPanic (q : Q K) (b : Nat) (nd : Node K)
+    (hb : ∀ (id : Nat) (c : Coll K), id < q.nodes.size → collectNode q b id c ≠ .panic) :
+    ∀ (lanes : List Nat) (r : CollRes K), r ≠ .panic → foldLanes q b nd lanes r ≠ .panic := by
+  intro lanes
+  induction lanes with
+  | nil => intro r hr; exact hr
+  | cons l rest ih =>
+    intro r hr
+    cases r with
+    | panic => exact absurd rfl hr
+    | force => rw [foldLanes_force]; exact fun h => by cases h
+    | ok c =>
+      rw [foldLanes_cons]
+      apply ih
+      cases hch : nd.children[l]? with
+      | none => exact fun h => by cases h
+      | some ch =>
+        dsimp only
+        split
+        · rename_i hlt; exact hb ch c hlt
+        · exact fun h => by cases h
+
+theorem collectNode_noPanic (q : Q K) : ∀ (b id : Nat) (c : Coll K), id < q.nodes.size → collectNode q b id c ≠ .panic := by
+  intro b
+  induction b with
+  | zero => intro id c _ h; simp [collectNode] at h
+  | succ b ih =>
+    intro id c hlt
+    rw [collectNode_succ q b id c q.nodes[id] (by simp [hlt])]
+    split
+    · exact fun h => by cases h
+    · split
+      · exact foldLanes_noPanic q b _ ih _ _ (fun h => by cases h)
+      · exact fun h => by cases h
+
+theorem collectAll_noPanic (q : Q K) (root : Node K) : collectAll q root ≠ .panic :=
+  foldLanes_noPanic q FULL_REBUILD_DEPTH root (collectNode_noPanic q _) _ _ (fun h => by cases h)
+
+/-- the leaves handed to `clear_and_rebuild` on the full-rebuild path: the attached proxies, in index order -/
+theorem allLeaves_spec {q : Q K} (hinv : Inv q) (hdata : DataOk q) :
+    ∀ (l : List Proxy) (k : Nat), (∀ i : Nat, i < l.length → q.proxies[k + i]? = l[i]?) →
+      ∃ items : List (Nat × Aabb3 K), allLeaves q l = some items ∧ items.length ≤ l.length ∧
+        (∀ it ∈ items, k ≤ it.1 ∧ it.1 < k + l.length) ∧ (items.map (·.1)).Pairwise (· < ·) := by
+  intro l
+  induction l with
+  | nil => intro k _; exact ⟨[], rfl, by simp, by simp, by simp⟩
+  | cons pr rest ih =>
+    intro k h
+    obtain ⟨items, e, a1, a2, a3⟩ := ih (k + 1) (fun i hi => by
+      have := h (i + 1) (by simp; omega)
+      simp only [List.getElem?_cons_succ] at this
+      rw [← this]; congr 1; omega)
+    have hpr : q.proxies[k]? = some pr := by
+      have := h 0 (by simp)
+      simpa using this
+    unfold allLeaves
+    cases hn : q.nodes[pr.node]? with
+    | none =>
+      simp only [hn]
+      exact ⟨items, e, by simp; omega, fun it hit => by have := a2 it hit; simp; omega, a3⟩
+    | some nd =>
+      have hne : pr.node ≠ MAXN := by
+        intro e'
+        have := (Array.getElem?_eq_some_iff.mp hn).1
+        have := hinv.small; omega
+      obtain ⟨_, nd', hnd', _, hch⟩ := hinv.proxyLeaf k pr hpr hne
+      rw [hn] at hnd'; cases hnd'
+      have hl4 : pr.lane < 4 := by rcases vec4_lane _ _ _ hch with h | h | h | h <;> omega
+      simp only [hn, show nd.boxes[pr.lane]? = some nd.boxes[pr.lane] by simp [hl4], e, Option.map_some]
+      refine ⟨_, rfl, by simp; omega, ?_, ?_⟩
+      · intro it hit
+        simp only [List.mem_cons] at hit
+        rcases hit with rfl | hit
+        · rw [hdata k pr hpr hne]; simp
+        · have := a2 it hit; simp; omega
+      · simp only [List.map_cons, List.pairwise_cons]
+        refine ⟨?_, a3⟩
+        intro x hx
+        obtain ⟨it, hit, rfl⟩ := List.mem_map.1 hx
+        rw [hdata k pr hpr hne]
+        have := a2 it hit; omega
+
+/-- what `rebalance` guarantees -/
+structure RebalanceRes (q q' : Q K) : Prop where
+  inv : Inv q'
+  rootPar : ∀ r : Node K, q'.nodes[0]? = some r → r.parent = MAXN
+  dirtyList : q'.dirtyNodes = q.dirtyNodes
+  data : DataOk q → DataOk q'
+  clean : (∀ (n : Nat) (nd : Node K), q.nodes[n]? = some nd → nd.dirty = false) →
+    ∀ (n : Nat) (nd : Node K), q'.nodes[n]? = some nd → nd.dirty = false
+
+/-- **`rebalance` never panics, terminates, and preserves the structural invariant** — on both paths (re-split of the
+collected entries with free-list reuse; full rebuild when a changed subtree is deeper than `FULL_REBUILD_DEPTH`).
+`hfit`: the node count after the call fits `u32` (the `as u32` casts are not modelled). -/
+theorem rebalance_spec (q : Q K) (margin : K) (hinv : Inv q) (hdata : DataOk q) (hp : 4 * q.proxies.size + 2 ≤ MAXN)
+    (hfit : ∀ q' : Q K, rebalance q margin = some q' → q'.nodes.size ≤ MAXN) :
+    ∃ q' : Q K, rebalance q margin = some q' ∧ RebalanceRes q q' := by
+  unfold rebalance at hfit ⊢
+  cases hroot : q.nodes[0]? with
+  | none =>
+    refine ⟨q, rfl, hinv, ?_, rfl, id, id⟩
+    intro r hr; rw [hroot] at hr; cases hr
+  | some root =>
+    simp only [hroot] at hfit ⊢
+    cases hc : collectAll q root with
+    | panic => exact absurd hc (collectAll_noPanic q root)
+    | force =>
+      simp only [hc] at hfit ⊢
+      obtain ⟨items, e, a1, a2, a3⟩ := allLeaves_spec hinv hdata q.proxies.toList 0 (fun i hi => by simp)
+      simp only [e] at hfit ⊢
+      have hlen : items.length ≤ q.proxies.size := by simpa using a1
+      have hnd : (items.map (·.1)).Nodup := a3.imp (fun h => Nat.ne_of_lt h)
+      have hid : ∀ it ∈ items, it.1 < MAXN := by
+        intro it hit
+        have := (a2 it hit).2
+        simp only [Array.length_toList] at this
+        omega
+      obtain ⟨q', e', out⟩ := rebuild_spec q items 0 hnd hid (by omega)
+      refine ⟨q', e', out.inv, out.rootPar, out.dirtyList, ?_, fun _ => out.clean⟩
+      intro _ p pr hpr hne
+      obtain ⟨pr', h1, h2⟩ := out.data p ((out.attached p pr hpr).1 hne)
+      rw [hpr] at h1; cases h1; exact h2
+    | ok c =>
+      simp only [hc] at hfit ⊢
+      -- the recursion terminates
+      have hpos : 0 < q.nodes.size := (Array.getElem?_eq_some_iff.mp hroot).1
+      obtain ⟨⟨_, _, hrleaf⟩, hlive0⟩ : (∃ r : Node K, q.nodes[0]? = some r ∧ r.leaf = false) ∧ Live q 0 := by
+        rcases hinv.root with h | h
+        · omega
+        · exact h
+      rename_i root' hroot'
+      rw [hroot] at hroot'; cases hroot'
+      obtain ⟨d, hd0, hd⟩ := hinv.depth
+      have ctx : CCtx q d := ⟨hinv, hd0, hd⟩
+      obtain ⟨roots, F, its, hroots, hfree, hitems, g⟩ := collectAll_spec ctx root hroot hlive0 hrleaf c hc
+      have wok : WsOk c.items.reverse.toArray q.nodes.size q.proxies.size := by
+        rw [hitems]; exact wsOk_of_goodF hinv g
+      have hst : StOk c.items.reverse.toArray q.nodes.size q.proxies.size { q with freeList := c.free } := by
+        refine ⟨Nat.le_refl _, rfl, ?_, ?_, ?_⟩
+        · show c.free.Nodup
+          rw [hfree, List.nodup_append]
+          exact ⟨g.nodup, hinv.freeNodup, fun a ha b hb e => (g.free a ha).1 (e ▸ hb)⟩
+        · intro n hn
+          have hn' : n ∈ c.free := hn
+          rw [hfree, List.mem_append] at hn'
+          rcases hn' with h | h
+          · exact (g.free n h).2.2.1
+          · exact hinv.freeBound n h
+        · intro i a ha hl hm
+          have hm' : a.orig ∈ c.free := hm
+          rw [hfree, List.mem_append] at hm'
+          have hai : a ∈ its := by
+            rw [hitems] at ha
+            have : a ∈ its.reverse := by
+              simp only [List.getElem?_toArray] at ha
+              exact List.mem_of_getElem? ha
+            simpa using this
+          obtain ⟨lv, _, _, _, nf, _⟩ := g.kept a hai hl
+          rcases hm' with h | h
+          · exact nf h
+          · exact lv h
+      obtain ⟨⟨q1, id, aabb⟩, hrec⟩ := rebalRec_total c.items.reverse.toArray q.nodes.size q.proxies.size wok margin
+        (Array.range c.items.reverse.toArray.size).size { q with freeList := c.free }
+        (Array.range c.items.reverse.toArray.size) 0 0 (Nat.le_refl _) hst (by simp [List.nodup_range])
+        (by intro i hi; simpa using hi)
+      have o := rebalRec_spec _ _ _ wok margin _ _ _ _ _ _ hrec hst (by simp [List.nodup_range]) (by intro i hi; simpa using hi)
+      have hpos1 : 0 < q1.nodes.size := by
+        have := o.frame.nsize
+        have h' : q.nodes.size ≤ q1.nodes.size := this
+        omega
+      simp only [hrec, hpos1, if_true] at hfit ⊢
+      have hrec' : rebalRec c.items.reverse.toArray margin c.items.reverse.toArray.size { q with freeList := c.free }
+          (Array.range c.items.reverse.toArray.size) 0 0 = some (q1, id, aabb) := by
+        simpa using hrec
+      have hsmall : q1.nodes.size ≤ MAXN := by
+        have := hfit _ rfl
+        simpa using this
+      have out := rebalance_okPath hinv margin root hroot c hc q1 id aabb hrec' hsmall
+      refine ⟨_, rfl, out.inv, out.rootPar, out.dirtyList, ?_, out.clean⟩
+      intro hd' p pr' hp' hne
+      obtain ⟨pr, h1, h2, h3⟩ := out.attached p pr' hp'
+      rw [h2]
+      exact hd' p pr h1 (fun e => hne (h3.2 e))
